@@ -41,6 +41,12 @@ CLAIMED = {
          "renumbering lemmas). union-find is modelled by its specification; model and an independent evaluation of the "
          "definition are compared with the fresh build on generated and (thorough) exhaustive inputs",
          "Rocq proof + translator + differential correspondence"),
+ "C14": ("proof", "Coq theorems: locmax/locmin mark a pixel iff no non-centre member of the neighbourhood (edge-replicated) is strictly "
+         "better (any dimension/neighbourhood); regional extrema are a subset of local ones (the flood only clears marks); hitmiss "
+         "= (whole template inside and all 0/1 entries coincide) for every template with odd sides in any dimension. Regional "
+         "extrema and close_holes floods are executable models compared with executable Coq specifications built on the proved "
+         "quick-find closure (plateaus / border-connected background), on generated and exhaustive small inputs, and with the fresh build",
+         "Rocq proof + translator + differential correspondence"),
 }
 NOT_YET = "check not built yet in this round (see DESIGN.md section 8 for the plan)"
 ALL = ["C%02d" % i for i in range(1, 21)]
